@@ -126,7 +126,7 @@ zreadMM(FILE *fp, int *m, int *n, int_t *nonz,
     asub = *rowind;
     xa   = *colptr;
 
-    if ( !(val = (doublecomplex *) SUPERLU_MALLOC(new_nonz * sizeof(double))) )
+    if ( !(val = (doublecomplex *) SUPERLU_MALLOC(new_nonz * sizeof(doublecomplex))) )
         ABORT("Malloc fails for val[]");
     if ( !(row = int32Malloc(new_nonz)) )
         ABORT("Malloc fails for row[]");
